@@ -393,10 +393,20 @@ def token_arms(F, h):
             if table and len(subs) == 1 and subs[0].get("pk") == "bind":
                 for t, op in table.items():
                     out.append(([t], e["then"], (subs[0]["name"], op)))
-    if len(ms) != 1:
+    if len(ms) == 1:
+        for a in ms[0]["arms"]:
+            out.append((token_names(a["pat"]), a["body"], None))
+        return out
+    if ms:
         return None
-    for a in ms[0]["arms"]:
-        out.append((token_names(a["pat"]), a["body"], None))
+    # no match over tokens: `if let Token::X = peeked { .. } else { .. }` is the one-arm match with a `_` arm
+    ifs = [e for e in hir_walk(h["body"]) if e.get("k") == "If" and e["cond"].get("k") == "Let" and "Token::" in H.pat_str(e["cond"]["pat"])
+           and e.get("else") is not None]
+    ifs = [e for e in ifs if not any(e is not o and any(x is e for x in hir_walk(o)) for o in ifs)]      # outermost only
+    if len(ifs) != 1:
+        return None if not out else out
+    out.append((token_names(ifs[0]["cond"]["pat"]), ifs[0]["then"], None))
+    out.append((["_"], ifs[0]["else"], None))
     return out
 
 
